@@ -248,3 +248,6 @@ def run(ctx, rep) -> None:
         elif v != 'ok':
             rep.classified(v if v == 'F16' else '', f'{t["id"]}: {v}', payload={k: t[k] for k in ('id', 'gate', 'scenario')})
     rep.sample({'steps': traces[0]['steps'][:4]}); rep.sample({'gate': traces[-3]['gate'], 'scenario': traces[-3]['scenario']['gate']})
+    # the readiness gate is a ToggleSet: the real aiotoggles classes (and aiotime.sleep) against Kits.tla
+    from vf import kits
+    kits.stage(ctx, rep, 'the readiness gate (aiotoggles)')
